@@ -7,19 +7,25 @@ import json, os, subprocess, sys, glob
 
 VERIF = os.path.dirname(os.path.dirname(os.path.abspath(__file__)))
 PRE = "/tmp/verif_preseed"
-only = sys.argv[1:] or None
+only = [a for a in sys.argv[1:] if not a.startswith("--")] or None
+from concurrent.futures import ThreadPoolExecutor
 rows = []
-for d in sorted(glob.glob(os.path.join(VERIF, "seeded", "C*"))):
+
+
+def one(d):
     sid = os.path.basename(d)
     patch = os.path.join(d, "patch.diff")
     if not os.path.exists(patch):
-        continue
+        return None
     meta_p = os.path.join(d, "meta.json")
     meta = json.load(open(meta_p)) if os.path.exists(meta_p) else {}
     if only is None or sid in only:
         res = {}
         for tag, root in (("pre_seed", PRE), ("current", VERIF)):
             if not os.path.isdir(root):
+                continue
+            if tag == "pre_seed" and "pre_seed" in meta.get("lokysa", {}) and "--redo-pre" not in sys.argv:
+                res[tag] = meta["lokysa"]["pre_seed"]      # the tagged checks do not change
                 continue
             out = f"/tmp/eval_{sid}_{tag}.json"
             if os.path.exists(out):
@@ -44,7 +50,9 @@ for d in sorted(glob.glob(os.path.join(VERIF, "seeded", "C*"))):
         if not x:
             return "not detected"
         return "; ".join(f"{k}: {'/'.join(v['rules']) or ('ANALYSIS-ERROR' if v['exit'] == 2 else '?')}" for k, v in sorted(x.items()))
-    rows.append((sid, meta.get("property", sid[:3]), (meta.get("summary") or "")[:160].replace("|", "/"), fmt(res.get("pre_seed")), fmt((res.get("at_collection") or {}).get("result")), fmt(res.get("current"))))
+    return ((sid, meta.get("property", sid[:3]), (meta.get("summary") or "")[:160].replace("|", "/"), fmt(res.get("pre_seed")), fmt((res.get("at_collection") or {}).get("result")), fmt(res.get("current"))))
+with ThreadPoolExecutor(5) as ex:
+    rows = [r for r in ex.map(one, sorted(glob.glob(os.path.join(VERIF, "seeded", "C*")))) if r]
 print("| seed | property | change | checks before any seed (tag pre-seed) | checks when the change was collected | current checks |")
 print("|---|---|---|---|---|---|")
 for r in rows:
